@@ -147,7 +147,8 @@ VReq(e) ==
 
 VAdvance(e) ==
   LET T == HAdvance(H, e.dt) IN
-  IF ~ObsAllOK(T.S, e.obsall) THEN V("C31_http_state_after_timeout", H)
+  IF e.crash # "" THEN V("C31_http_timeout_raised", H)
+  ELSE IF ~ObsAllOK(T.S, e.obsall) THEN V("C31_http_state_after_timeout", H)
   ELSE IF "dobsall" \in DOMAIN e /\ ~ObsAllOK(T.S, e.dobsall) THEN V("C31_agree_state_after_timeout", H)
   ELSE V("", T)
 
@@ -197,8 +198,11 @@ VAReadv(e) ==
      ELSE IF NormR(e.res) # want THEN V("C31_adapter_readv", H)
      ELSE V("", H)
 
+\* a zero-delay call of the server (a timer, an eventual-send) raised while the request was being served
+RaisedClause == IF Traces[tid].consts.mode = "authz" THEN "C30_server_side_exception" ELSE "C31_server_side_exception"
 Verdict(e) ==
-  CASE e.ev = "Req"     -> VReq(e)
+  CASE "raised" \in DOMAIN e -> V(RaisedClause, H)
+    [] e.ev = "Req"     -> VReq(e)
     [] e.ev = "AReadv"  -> VAReadv(e)
     [] e.ev = "ReqLost" -> VReqLost(e)
     [] e.ev = "ClientRead0" -> VClientRead0(e)
